@@ -318,6 +318,28 @@ pub fn run_c11(out: &mut Out, seed: u64, thorough: bool) {
             }
         }
     }
+    // 1b. long data-dependent instructions: DIV and MUL with every dividend / multiplier for small
+    //     divisors (quotients up to 255 => more than 500 edges), stepped in assembly mode
+    for (op, bs) in [(0xC4u8, vec![1u8, 2, 3, 7, 255]), (0xB4u8, vec![1u8, 2, 255])].iter() {
+        for b in bs {
+            for a in 0..=255u32 {
+                if !thorough && a % 4 != (seed % 4) as u32 && a < 240 {
+                    continue;
+                }
+                let mut s = Sess::new();
+                run_line(out, &mut s, "new");
+                run_line(out, &mut s, &format!("load 0 255 {:02x}4402", op));
+                run_line(out, &mut s, &format!("force 0 2 {:02x}{:02x}000000800000 - 0 0 0 0 0 0 0 R 0", a, b));
+                run_line(out, &mut s, "mode A");
+                for _ in 0..3 {
+                    run_line(out, &mut s, "spec.asmstep");
+                    run_line(out, &mut s, "clock");
+                    run_line(out, &mut s, "d");
+                }
+                out.count("long-instr");
+            }
+        }
+    }
     // 2. every mid-run state of generated runs: step issued at every single edge
     let cases = if thorough { 400 } else { 40 };
     for c in 0..cases {
